@@ -1,6 +1,61 @@
 #!/bin/bash
-# thorough tier: the quick rules on linux/amd64 plus the 386 variant; (self-test variants are added per property)
+# thorough tier for one property:
+#   1. the quick rules on /repo's working tree for linux/amd64 (this is the verdict and the evidence),
+#   2. the same rules on the 32-bit build variant (GOARCH=386),
+#   3. the self-test: every seeded change and fix-revert recorded for this property, applied to a scratch copy of the
+#      working tree (outside /repo and /verif, removed at once), must be reported; every behaviour-preserving
+#      variant must leave the check silent.
 set -u
 cd "$(dirname "$0")"
-PROP="$1"; REPO="$2"
-./bin/sqlcheck -repo "$REPO" -prop "$PROP" -tier thorough
+PROP="$1"; REPO="${2:-/repo}"
+export VERIF_REPO="$REPO"
+mkdir -p out
+ST="out/$PROP.selftest.json"
+TMP=$(mktemp -d "${TMPDIR:-/tmp}/sqlthorough.XXXXXX")
+trap 'rm -rf "$TMP"' EXIT
+# 2. 386
+a386=ok
+o=$(./bin/sqlcheck -repo "$REPO" -prop "$PROP" -goarch 386 -no-evidence -out "$TMP/out386" 2>&1)
+if echo "$o" | grep -q "^VIOLATION"; then a386=$(echo "$o" | grep -E "^  (violation|undecided)|error" | head -3 | tr '\n' ' ' | cut -c1-400); fi
+# 3. self-test
+ls seeded/$PROP-*/patch.diff selftest/revert/*${PROP}*.diff 2>/dev/null > "$TMP/variants"
+ls selftest/benign/*.diff 2>/dev/null > "$TMP/benign"
+cat "$TMP/variants" | xargs -r -P 4 -I{} ./tools/run_variant.sh {} "$PROP" > "$TMP/v.out" 2>/dev/null
+cat "$TMP/benign"   | xargs -r -P 4 -I{} ./tools/run_variant.sh {} "$PROP" > "$TMP/b.out" 2>/dev/null
+python3 - "$TMP" "$PROP" "$a386" > "$ST" <<'PY'
+import json, sys, os
+tmp, prop, a386 = sys.argv[1], sys.argv[2], sys.argv[3]
+def lines(f):
+    return [l.rstrip('\n') for l in open(os.path.join(tmp, f)) if l.strip()]
+variants = [l.strip() for l in open(os.path.join(tmp, 'variants')) if l.strip()]
+det, undet, noapply, samples = [], [], [], []
+seen = set()
+for l in lines('v.out'):
+    p = l.split(' ', 3)
+    name = p[0]
+    if len(p) >= 2 and p[1] == 'NOAPPLY':
+        noapply.append(name); seen.add(name); continue
+    if len(p) >= 3 and p[2] == 'DETECTED':
+        det.append(name); seen.add(name)
+        if len(samples) < 4: samples.append({'variant': name, 'report': p[3].strip() if len(p) > 3 else ''})
+    elif len(p) >= 3:
+        undet.append(name); seen.add(name)
+silent, noisy = [], []
+for l in lines('b.out'):
+    p = l.split(' ', 3)
+    if len(p) >= 2 and p[1] == 'NOAPPLY':
+        continue
+    if len(p) >= 3 and p[2] == 'silent': silent.append(p[0])
+    elif len(p) >= 3: noisy.append(p[0] + ': ' + (p[3] if len(p) > 3 else ''))
+# name seeded variants by their directory
+def label(path):
+    return path.split('/')[-2] if path.startswith('seeded/') else path.split('/')[-1]
+json.dump({
+ 'variants': len(variants), 'variant_names': [label(v) for v in variants],
+ 'detected': len(det), 'undetected': undet, 'not_applicable_to_current_tree': noapply,
+ 'benign_variants': len(silent) + len(noisy), 'benign_silent': len(silent), 'noisy': noisy,
+ 'arch386': a386, 'samples': samples,
+ 'note': 'variants are applied to a scratch copy of the current working tree; a variant whose patch no longer applies is skipped, not counted as detected',
+}, sys.stdout, indent=1)
+PY
+exec ./bin/sqlcheck -repo "$REPO" -prop "$PROP" -tier thorough -selftest "$ST"
